@@ -12,10 +12,13 @@ package main
 import (
 	"fmt"
 	"go/ast"
+	"go/constant"
 	"go/token"
 	"go/types"
 	"regexp/syntax"
 	"strings"
+
+	"golang.org/x/tools/go/packages"
 )
 
 type byteSet [256]bool
@@ -168,6 +171,29 @@ func (w *World) collectRegexVars() {
 		if lit, ok := w.regexVars[t]; ok {
 			w.regexVars[a] = lit
 		}
+	}
+	// string constants of dependencies that are used as patterns (read from the type
+	// information of the module source actually compiled in): semver.semVerRegex
+	var visit func(p *packages.Package, seen map[string]bool)
+	visit = func(p *packages.Package, seen map[string]bool) {
+		if seen[p.PkgPath] {
+			return
+		}
+		seen[p.PkgPath] = true
+		if p.PkgPath == "github.com/Masterminds/semver/v3" && p.Types != nil {
+			if c, ok := p.Types.Scope().Lookup("semVerRegex").(*types.Const); ok {
+				if v, ok := constVal(c.Val(), c.Type()); ok && v.S == SStr {
+					w.regexByName["semver.semVerRegex"] = constant.StringVal(c.Val())
+				}
+			}
+		}
+		for _, imp := range p.Imports {
+			visit(imp, seen)
+		}
+	}
+	seen := map[string]bool{}
+	for _, p := range w.pkgs {
+		visit(p, seen)
 	}
 }
 
